@@ -65,7 +65,7 @@ def _enforce_fn(m, fn: FuncRef, owner: ClassRef, cls: ClassRef):
     node = fn.node
     where = m.floc(fn)
     body = astq.stmts(node)
-    info = dict(where=[where], fixpoint=False, supercall_in_loop=False)
+    info = dict(where=[where], fixpoint=False, supercall_in_loop=False, problems=[])
     clauses = set()
     if len(body) == 1 and isinstance(body[0], ast.Pass):
         return frozenset(), info
@@ -95,7 +95,10 @@ def _enforce_fn(m, fn: FuncRef, owner: ClassRef, cls: ClassRef):
                 visit(st.body, loops, True)
                 if not any(isinstance(x, ast.If) and isinstance(x.body[-1], ast.Break) and astq.u(x.test) == 'not to_add'
                            for x in st.body):
-                    raise Unsupported(f'{where}: fixpoint loop without `if not to_add: break`')
+                    info['problems'].append('the closure loop does not run until nothing new is added (`if not to_add: break` is gone)')
+                if any(isinstance(x, ast.Break) for x in st.body):
+                    info['fixpoint'] = False
+                    info['problems'].append('the closure loop breaks unconditionally: a single pass, not a fixpoint')
                 continue
             if isinstance(st, ast.For):
                 it = astq.u(st.iter)
@@ -141,7 +144,7 @@ def _enforce_fn(m, fn: FuncRef, owner: ClassRef, cls: ClassRef):
             handle_add(st, loops, None)
 
     def handle_add(st, loops, guard_head):
-        if isinstance(st, ast.Pass):
+        if isinstance(st, (ast.Pass, ast.Break)):
             return
         if isinstance(st, ast.Expr) and isinstance(st.value, ast.Call):
             c = st.value
@@ -168,13 +171,15 @@ def _enforce_fn(m, fn: FuncRef, owner: ClassRef, cls: ClassRef):
         if isinstance(pfn, FuncRef):
             inherited, pinfo = _enforce_fn(m, pfn, powner, cls)
             info['where'] += pinfo['where']
+            info['problems'] += pinfo['problems']
         if info['fixpoint']:
             pm = astq.parent_map(node)
             info['supercall_in_loop'] = all(astq.enclosing(pm, c, ast.While) is not None for c in supers)
     if (TRANS in clauses or SYMM in clauses) and not info['fixpoint']:
-        raise Unsupported(f'{where}: transitive/symmetric closure computed in a single pass')
+        info['problems'].append(f'{fn.qualname}: transitive/symmetric closure computed in a single pass, not to a fixpoint')
     if info['fixpoint'] and inherited and not info['supercall_in_loop']:
-        raise Unsupported(f'{where}: inherited clauses are not re-applied inside the fixpoint loop')
+        info['problems'].append(f'{fn.qualname}: the inherited closure ({sorted(c[0] for c in inherited)}) is applied once outside the fixpoint loop: '
+                                f'pairs that become derivable only after this class adds its own are never added')
     return frozenset(clauses) | inherited, info
 
 
